@@ -360,6 +360,26 @@ fn discovery_tags(list: &[ds::Horizontal], words: &[(usize, usize, u32, String)]
                         if skipped > 0 {
                             out.tag(format!("seek:start-after-skipping"));
                         }
+                        if !words.iter().any(|w| w.0 == k) {
+                            // the search started a word that the model does not report: the terminating
+                            // node forbids it (or the starting ligature is mixed: empty s)
+                            let mut j = k;
+                            while let Some(Char(_) | Ligature(_)) = list.get(j) {
+                                j += 1;
+                            }
+                            while let Some(m) = list.get(j) {
+                                let stepped = match m {
+                                    Char(_) | Ligature(_) => true,
+                                    Kern(kk) => kk.kind == ds::KernKind::Normal,
+                                    _ => false,
+                                };
+                                if !stepped {
+                                    break;
+                                }
+                                j += 1;
+                            }
+                            out.tag(format!("word-rejected-before:{}", list.get(j).map(kind_name).unwrap_or("end")));
+                        }
                         break;
                     }
                     let skip = match n {
